@@ -211,8 +211,8 @@ def model_predictions(cases, wd, max_swap_images=60):
             cnt, per, ctg = btype_of(c)
             contig = 'true' if ctg else 'false'
             nbytes = c['n'] * ELSIZE[c['xt']]
-            flag = 'put_swaps_user_buf %s %s %s %s false %s %d' % (API_COQ[c['api']], 'true' if nc else 'false',
-                                                                   'true' if nb else 'false', contig, HINT[c['hint']], nbytes)
+            flag = '(put_swaps_user_buf %s %s %s %s false %s %d)' % (API_COQ[c['api']], 'true' if nc else 'false',
+                                                                     'true' if nb else 'false', contig, HINT[c['hint']], nbytes)
             body = '[]'
             if c['memk'] == c['xt'] and ctg and nimg < max_swap_images and c['n'] <= 1100:
                 body = zbytes(put_body(c)); nimg += 1
